@@ -88,7 +88,7 @@ func c10Oracle(p *Plan) *Verdict {
 	_ = dir
 	// --- representations of both messages on their way through the transcoder
 	var names []string
-	repsOf := func(which string, data []byte, compressed bool, fromCodec, comp string, reencoded bool, toCodec string) int64 {
+	repsOf := func(which string, data []byte, compressed bool, pad int, fromCodec, comp string, reencoded bool, toCodec string) int64 {
 		var m int64
 		add := func(name string, n int) {
 			if n >= 0 {
@@ -100,7 +100,7 @@ func c10Oracle(p *Plan) *Verdict {
 		}
 		add("encoded", sizeUnderRef(fromCodec, data))
 		if compressed && comp != "" {
-			add("wire", len(refCompress(comp, refEncode(fromCodec, data))))
+			add("wire", len(refCompressPadded(comp, refEncode(fromCodec, data), pad)))
 		}
 		if reencoded {
 			add("reencoded", sizeUnder(toCodec, data))
@@ -119,7 +119,7 @@ func c10Oracle(p *Plan) *Verdict {
 	b := st.backend()
 	reqData := rc.Client.Msgs[0].Data
 	reqCompressed := rc.Client.Compression != "" && (rc.Client.Msgs[0].Compressed || !enveloped(rc.Client.Form))
-	reqMax := repsOf("req", reqData, reqCompressed, rc.Client.Codec, rc.Client.Compression, full["path"] == "reencode" || full["path"] == "prep", n.Codec)
+	reqMax := repsOf("req", reqData, reqCompressed, rc.Client.Msgs[0].Pad, rc.Client.Codec, rc.Client.Compression, full["path"] == "reencode" || full["path"] == "prep", n.Codec)
 	var respMax int64
 	respData := rc.Backend.Resp.Msgs[0].Data
 	if b != nil && st.respEndLen > 0 {
@@ -130,7 +130,7 @@ func c10Oracle(p *Plan) *Verdict {
 		}
 	}
 	if b != nil {
-		if m := repsOf("resp", respData, rc.Backend.Resp.Msgs[0].Compressed && st.respComp != "", b.Codec, st.respComp, full["rpath"] == "reencode" || full["rpath"] == "prep", rc.Client.Codec); m > respMax {
+		if m := repsOf("resp", respData, rc.Backend.Resp.Msgs[0].Compressed && st.respComp != "", rc.Backend.Resp.Msgs[0].Pad, b.Codec, st.respComp, full["rpath"] == "reencode" || full["rpath"] == "prep", rc.Client.Codec); m > respMax {
 			respMax = m
 		}
 	}
@@ -286,6 +286,23 @@ func init() {
 						rc.Client.Msgs = []MsgSpec{{Data: d, Compressed: false}}
 						break
 					}
+				}
+			}
+			if c.Prob(0.2) {
+				// the compressed form larger than the message: a small message whose compressed frame is padded with empty stored
+				// blocks to just over L, or to beyond the bound on buffering
+				small2 := MsgSpec{Data: bigMsg(Pick(c, 0, L/4), fill, c), Compressed: true}
+				small2.Pad = Pick(c, L/5+1, L/5+8, (8*L+c10Slack)/5+64, 2*(8*L+c10Slack)/5)
+				if dir == "request" {
+					if rc.Client.Compression == "" {
+						rc.Client.Compression = Pick(c, "gzip", "deflate")
+					}
+					rc.Client.Msgs = []MsgSpec{small2}
+				} else {
+					if rc.Backend.Resp.Compression == "" {
+						rc.Backend.Resp.Compression = Pick(c, "gzip", "deflate")
+					}
+					rc.Backend.Resp.Msgs = []MsgSpec{small2}
 				}
 			}
 			if rc.Client.Form == FormConnectGet {
